@@ -258,7 +258,13 @@ def _remove_pockets_on_one_side_of_the_pinch(
                 else:
                     i_0 += n_int_added
 
-            j_rng = range(i_0 + 1, i + 1) if is_above_pinch else range(i + 1, i_0)
+            if is_above_pinch:
+                j_rng = range(i_0 + 1, i + 1)
+            else:
+                # Without a new row (closing temperature already present) the pocket's last
+                # row i has not been pushed down and still has to be flattened.
+                first = i + 1 if (n_int_added > 0 or i == pinch_loc) else i
+                j_rng = range(first, i_0)
             for j in j_rng:
                 H_NP_vals[j] = H_vals[i_0]
 
